@@ -21,6 +21,7 @@ import M17.Model.Mod
 import M17.Model.Dcd
 import M17.Model.App
 import M17.Model.Demod
+import M17.Model.Ax25
 
 open M17
 
@@ -240,6 +241,19 @@ def handle (st : DrvState) (op : String) (a : List Int) : DrvState × String :=
     let g := match rest with | [x] => x.toNat | _ => Gen.prbsInitState
     (st, joinInts ((bitsToInts (Prbs.genBits n.toNat g)) ++ [Int.ofNat (Prbs.genState n.toNat g)]))
   | "prbs", toks => (st, prbsScenario toks)
+  | "ax25", bytes =>
+    let bs (l : List Nat) := String.join (l.map fun b => " " ++ toString b)
+    let show_ (d s : List Nat) (reps : List (List Nat)) (t : Nat) (pid : Option Nat) (info : List Nat) :=
+      "D" ++ bs d ++ " | S" ++ bs s ++ " | R " ++ toString reps.length ++ String.join (reps.map fun r => " |" ++ bs r) ++
+      " | T " ++ toString t ++ " | P " ++ (match pid with | some p => toString p | none => "-1") ++ " | I" ++ bs info
+    match Ax25.parse (bytes.map Int.toNat) with
+    | some p => (st, show_ p.dest p.src p.reps p.ftype p.pid p.info)
+    | none => (st, show_ [] [] [] 0 none [])
+  | "app_bert", bytes =>
+    -- model of m17-demod's decode_bert on consecutive 25-byte frames from a reset validator: sync, errors, bits
+    let bs := bytes.map Int.toNat
+    let v := (List.range (bs.length / 25)).foldl (fun v k => Prbs.run v (App.bertBits ((bs.drop (25 * k)).take 25))) Prbs.init
+    (st, joinNats [if v.synced then 1 else 0, v.errCount, if v.synced then v.bitCount else 0])
   | "vit", llr :: _ :: nout :: v =>
     let (c, bits) := Vit.decode llr.toNat v nout.toNat
     let m := Vit.dp ((Vit.pairs v).map (fun p => Vit.branch (Vit.costTbl llr.toNat) p.1 p.2)) Vit.initMetrics
